@@ -83,6 +83,8 @@ def render_files(spec, rng, layout) -> dict:
             A.append([render_unit(u)])
     for d in spec.get("ddims", ()):
         A.append([render_ddim(d)])
+    if spec.get("free_ddim"):
+        A.append([f"[zfree] = [zundeclared] / {spec['dims'][0]}"])
     if layout.get("permute", True):
         rng.shuffle(A)
     # group blocks keep their relative order (a group must exist before another one uses it);
@@ -155,6 +157,8 @@ def statements(spec) -> list:
             out.append(render_unit(u))
     for d in spec.get("ddims", ()):
         out.append(render_ddim(d))
+    if spec.get("free_ddim"):
+        out.append(f"[zfree] = [zundeclared] / {spec['dims'][0]}")
     for g in spec.get("groups", ()):
         out.append("\n".join(render_group(g, spec["units"])))
     for a in spec.get("aliases", ()):
@@ -234,6 +238,8 @@ def expected_fingerprint(spec, with_defaults=True) -> dict:
             t2.units[rd["name"]] = dict(t.units[rd["name"]], factor=rd["factor"], ref=rd["ref"])
             f, d = t2.root_of_unit(rd["name"])
             fp["redef"][f"{c['name']}|{rd['name']}"] = norm_num(f)
+    if spec.get("free_ddim"):
+        fp["dimension"] = {"[zfree]": sorted([["[zundeclared]", 1], [spec["dims"][0], -1]])}
     later = _later_alias(spec)
     if later:
         fp["later"] = {"alias_of_prefixed_unit": later[0]}
@@ -318,6 +324,8 @@ def take_fingerprint(ureg, spec, num, full=True) -> dict:
                 with ureg.context(c["name"]):
                     return norm_num(ureg.get_root_units(rd["name"])[0])
             fp["redef"][f"{c['name']}|{rd['name']}"] = guard(rdf)
+    if spec.get("free_ddim"):
+        fp["dimension"] = {"[zfree]": guard(lambda: norm_units(ureg.get_dimensionality("[zfree]")))}
     later = _later_alias(spec)
     if later:
         def la():
@@ -419,6 +427,9 @@ def gen_case(streams, prop, tier):
     wr = streams.get("world")
     kr = streams.get("knobs")
     spec = gen_general(wr, {"offset": True})
+    # a derived dimension that refers to a dimension no base unit declares ([exposure] = [dose] * [time] without any
+    # unit of [dose]): the undeclared one becomes a base dimension by being mentioned
+    spec["free_ddim"] = kr.random() < 0.5
     # well-formed systems only (see worlds/systems.py): keep rules whose other root units have exponent +-1
     from .systems import gen_spec as gen_sys_spec  # noqa
     layout = {"permute": kr.random() < 0.85, "spacing": kr.random() < 0.6, "comments": kr.random() < 0.6,
@@ -669,7 +680,7 @@ class _Run:
                 import random
 
                 rng = random.Random(step["perm_seed"])
-                nfree = len(spec["prefixes"]) + len([u for u in spec["units"] if not u.get("group")]) + len(spec.get("ddims", ()))
+                nfree = len(spec["prefixes"]) + len([u for u in spec["units"] if not u.get("group")]) + len(spec.get("ddims", ())) + (1 if spec.get("free_ddim") else 0)
                 free = stmts[:nfree]
                 rng.shuffle(free)
                 stmts = free + stmts[nfree:]
